@@ -186,6 +186,25 @@ class VarsNoArgs:
         self.q = [3]
 
 
+class UnresolvedHints:
+    """an annotation names something that does not exist at runtime (an import under TYPE_CHECKING): the hints cannot be resolved,
+    the constructor's parameters are NOT the fields -- the fields are what the instance holds"""
+    sender: MissingAtRuntime   # noqa: F821
+    subject: str
+
+    def __init__(self, raw, sep=":"):
+        self.sender, _, self.subject = raw.partition(sep)
+
+
+class UnresolvedHintsSlots:
+    __slots__ = ("sender", "subject")
+    sender: MissingAtRuntime   # noqa: F821
+    subject: str
+
+    def __init__(self, raw):
+        self.sender, _, self.subject = raw.partition(":")
+
+
 class Empty:
     pass
 
@@ -428,6 +447,8 @@ FACTORIES = {
     "VarsExtra-2": (lambda: VarsExtra("ab", y=None), ["a", "extra", "y2"]),
     "VarsOnly": (lambda: VarsOnly((1, 2), [3]), ["a", "c"]),
     "VarsNoArgs": (VarsNoArgs, ["p", "q"]),
+    "UnresolvedHints": (lambda: UnresolvedHints("bob:hello"), ["sender", "subject"]),
+    "UnresolvedHintsSlots": (lambda: UnresolvedHintsSlots("ab:(1, 2)"), ["sender", "subject"]),
     "Empty": (Empty, []),
     "AnnClassVar": (lambda: AnnClassVar((1, 2), "ab"), ["a", "b"]),
     "AnnBareClassVar": (lambda: AnnBareClassVar((1, 2), 3), ["name", "size"]),
